@@ -8,6 +8,7 @@ import (
 	"math"
 	"net/http"
 	"net/url"
+	"strings"
 	"time"
 
 	connect "github.com/bufbuild/connect-go"
@@ -30,7 +31,19 @@ type c04Ending struct {
 var c04Endings = []c04Ending{{"eof", nil}, {"unexpected-eof", io.ErrUnexpectedEOF}, {"transport-error", errTransport},
 	// what net/http reports when the peer resets an HTTP/2 stream
 	{"rst-no-error", errors.New("stream error: stream ID 5; NO_ERROR; received from peer")},
-	{"rst-cancel", errors.New("stream error: stream ID 5; CANCEL; received from peer")}}
+	{"rst-cancel", errors.New("stream error: stream ID 5; CANCEL; received from peer")},
+	// what a body read reports once the call's context has ended (tried at
+	// frame boundaries, at the full length and at every fourth offset)
+	{"ctx-canceled", context.Canceled},
+	{"ctx-deadline", context.DeadlineExceeded}}
+
+func c04Thin(e c04Ending, k, n int, bounds map[int]int) bool {
+	if !strings.HasPrefix(e.name, "ctx-") {
+		return false
+	}
+	_, atB := bounds[k]
+	return !(atB || k == n || k%4 == 0)
+}
 
 // frameBoundaries returns the set of offsets at which an enveloped body has
 // delivered a whole number of frames.
@@ -103,6 +116,9 @@ func c04Response(run *ev.Run, rec *recorded, key string) {
 	}
 	for k := 0; k <= len(body); k++ {
 		for _, e := range c04Endings {
+			if c04Thin(e, k, len(body), bounds) {
+				continue
+			}
 			for _, withTr := range trailerModes {
 				ckey := fmt.Sprintf("%s/resp/k=%d/%s/trailers=%v", key, k, e.name, withTr)
 				var got *svc.CLog
@@ -236,6 +252,9 @@ func c04Request(run *ev.Run, rec *recorded, key string) {
 	}
 	for k := 0; k <= len(body); k++ {
 		for _, e := range c04Endings {
+			if c04Thin(e, k, len(body), bounds) {
+				continue
+			}
 			ckey := fmt.Sprintf("%s/req/k=%d/%s", key, k, e.name)
 			var hl *svc.HLog
 			var res *wire.Result
